@@ -605,4 +605,64 @@ example :
     (execN 12 s (.polled (.call [.polled c, .simple (probeSimple 1)]))).1.trace = [(97, 0)] := by
   refine ⟨by decide, by decide, by decide, by decide⟩
 
+/-! ### ★ lines without a command (after 4afb140) -/
+
+/-- A read-eval loop over lines NONE of which holds a command (blank lines, comments — a `.` script, an `eval`
+    text, a trap action or a main script made only of those) never ends the shell and leaves `$? = 0`, whatever
+    `$?` was: POSIX `.`/`eval` "zero if no command is executed" (docs/src/builtins/source.md) — so errexit cannot
+    fire on such a `.` after an exempt failure. -/
+theorem blank_script_leaves_zero (fuel : Nat) : ∀ (lines : List NLine) (s : St),
+    (∀ l ∈ lines, l = .cmds []) → readEvalLoopN fuel s false lines = ({ s with status := 0 }, .continue_)
+  | [], s, _ => by simp [readEvalLoopN, SUCCESS]
+  | l :: rest, s, h => by
+    have hl : l = .cmds [] := h l (by simp)
+    subst hl
+    simp only [readEvalLoopN, execSeq]
+    exact blank_script_leaves_zero fuel rest s (fun l hl => h l (by simp [hl]))
+
+/-- …and the same for the loop of the `sc` family (both the interactive and the non-interactive one) -/
+theorem blank_script_leaves_zero_sc (i : Bool) (fuel : Nat) : ∀ (lines : List ScLine) (s : St),
+    (∀ l ∈ lines, l = .cmds []) → readEvalLoop i fuel s false lines = ({ s with status := 0 }, .continue_)
+  | [], s, _ => by simp [readEvalLoop, SUCCESS]
+  | l :: rest, s, h => by
+    have hl : l = .cmds [] := h l (by simp)
+    subst hl
+    have ih := blank_script_leaves_zero_sc i fuel rest s (fun l hl => h l (by simp [hl]))
+    cases i <;> simpa [readEvalLoop, execStmts] using ih
+
+/-- Blank/comment lines AFTER a line that executed a command keep that command's status: once `executed` is set
+    trailing lines without commands change nothing, and a line with at least one command that completes sets it. -/
+theorem trailing_blank_lines_keep_status (fuel : Nat) (s : St) (c : NCmd) (l : List NCmd) :
+    (∀ (blanks : List NLine) (t : St), (∀ b ∈ blanks, b = .cmds []) →
+      readEvalLoopN fuel t true blanks = (t, .continue_)) ∧
+    (∀ (ex : Bool) (blanks : List NLine), (∀ b ∈ blanks, b = .cmds []) →
+      (execSeq (execN fuel) s (c :: l)).2 = .continue_ →
+      readEvalLoopN fuel s ex (.cmds (c :: l) :: blanks) = ((execSeq (execN fuel) s (c :: l)).1, .continue_)) := by
+  have h1 : ∀ (blanks : List NLine) (t : St), (∀ b ∈ blanks, b = .cmds []) →
+      readEvalLoopN fuel t true blanks = (t, .continue_) := by
+    intro blanks
+    induction blanks with
+    | nil => intro t _; simp [readEvalLoopN]
+    | cons b rest ih =>
+      intro t h
+      have hb : b = .cmds [] := h b (by simp)
+      subst hb
+      simp only [readEvalLoopN, execSeq]
+      exact ih t (fun b hb => h b (by simp [hb]))
+  refine ⟨h1, fun ex blanks hb hc => ?_⟩
+  have : readEvalLoopN fuel s ex (.cmds (c :: l) :: blanks) =
+      readEvalLoopN fuel (execSeq (execN fuel) s (c :: l)).1 true blanks := by
+    simp only [readEvalLoopN, hc]
+    simp
+  rw [this, h1 blanks _ hb]
+
+/-- `! st 0; . comments_only; probe 1` under errexit (the input of the finding): the `.` built-in — body
+    `evalEmpty` = a loop over lines without commands — sets `$? = 0` and the script goes on -/
+example :
+    readEvalLoopN 9 { status := 1 } false [.cmds [], .cmds [], .cmds []] = (({ status := 0 } : St), .continue_) ∧
+    (execSeq (execN 9) { errexit := true }
+      [.neg (.ctl (.st 0)), .simple (.mk (.ok none) (.builtin .special .evalEmpty) .none (.ok none)),
+       .simple (probeSimple 1)]).1.trace = [(1, 0)] := by
+  refine ⟨blank_script_leaves_zero 9 _ _ (by simp), by decide⟩
+
 end YashModel.Errexit
